@@ -38,27 +38,6 @@ class Case:
                                                outdir, self.xsl, self.xml)
 
 
-def in_class_KT1(case):
-    """known finding KT1: the shared source is a XercesDOMParsedSource (parseSource(.., useXercesDOM=true)),
-    whose wrapper document is built with threadSafe=false: unsynchronised string pool"""
-    return case.mode == "xdom"
-
-
-def in_class_KT2(case):
-    """known finding KT2: a const lookup in a never-filled XalanMap of a shared native source - id() when the
-    document declares no ID attribute, unparsed-entity-uri() when it declares no unparsed entity - (the
-    XalanList head of the empty map is allocated lazily by a const accessor)"""
-    return case.cls == "noid"
-
-
-def sig_KT1(block):
-    return "getPooledString" in block and ("XalanDOMStringPool" in block or "XalanDOMStringHashTable" in block)
-
-
-def sig_KT2(block):
-    return "getListHead" in block and "XalanList" in block
-
-
 def write(path, text):
     with open(path, "w", encoding="utf-8") as f:
         f.write(text)
@@ -90,27 +69,40 @@ def gen_cases(ctx, wd, n_random, tag="g"):
                   Case("c_wrap", "wrap", True, 8, 3, 0, allx, src0, "corpus", facs),
                   Case("c_own", "own", True, 8, 2, 0, allx, src0, "corpus", facs),
                   Case("c_ownxsl", "native", False, 8, 2, 0, allx, src0, "corpus", facs),
-                  Case("k_xdom", "xdom", True, 8, 2, 0, allx, src0, "known", facs),
-                  Case("k_noid", "native", True, 16, 2, 7, os.path.join(wd, "idonly.xsl"), os.path.join(wd, "noid.xml"), "noid", ["id"]),
-                  Case("k_uent", "native", True, 16, 2, 7, os.path.join(wd, "uent.xsl"), os.path.join(wd, "noid.xml"), "noid", ["unparsed-entity-uri"])]
+                  # regression cases of the repaired defects KT1 (4d62aaf) and KT2 (24f879b): must be clean
+                  Case("r_xdom", "xdom", True, 8, 2, 0, allx, src0, "regression", facs),
+                  Case("r_noid", "native", True, 16, 2, 7, os.path.join(wd, "idonly.xsl"), os.path.join(wd, "noid.xml"), "regression", ["id"]),
+                  Case("r_uent", "native", True, 16, 2, 7, os.path.join(wd, "uent.xsl"), os.path.join(wd, "noid.xml"), "regression", ["uent"]),
+                  Case("r_noid_w", "wrap", True, 16, 2, 3, os.path.join(wd, "idonly.xsl"), os.path.join(wd, "noid.xml"), "regression", ["id"]),
+                  Case("c_sortcase", "native", True, 12, 3, 5, os.path.join(wd, "sortcase.xsl"), src0, "corpus", ["sortcase", "sort"])]
+        write(os.path.join(wd, "sortcase.xsl"), thrgen.make_xsl(["sortcase", "sort"]))
     for i in range(n_random):
         k = r.choice([1, 2, 3, 4, 6, len(facs)])
         fs = r.sample(facs, k)
-        # the facilities with per-locale / lazily built caches get extra weight
+        # the facilities with per-locale / lazily built caches get extra weight: xsl:sort with lang x
+        # case-order (the ICU functor caches one collator per locale and re-tunes its case-first attribute)
         if r.random() < 0.5 and "sort" not in fs:
             fs.append("sort")
+        if r.random() < 0.4 and "sortcase" not in fs:
+            fs.append("sortcase")
+        # lookups in never-filled maps of the shared document (was KT2): id()/unparsed-entity-uri() without a DTD
+        ids = r.random() >= 0.3
+        if not ids:
+            for extra in ("id", "uent"):
+                if extra not in fs and r.random() < 0.7:
+                    fs.append(extra)
         r.shuffle(fs)
         xsl = os.path.join(wd, "%s%d.xsl" % (tag, i))
         xml = os.path.join(wd, "%s%d.xml" % (tag, i))
         write(xsl, thrgen.make_xsl(fs))
-        write(xml, thrgen.make_xml(r, r.choice([1, 3, 8, 14, 30, 60])))
-        mode = r.choice(["native", "native", "wrap", "wrap", "own"])
+        write(xml, thrgen.make_xml(r, r.choice([1, 3, 8, 14, 30, 60]), ids=ids, entity=ids and r.random() < 0.5))
+        mode = r.choice(["native", "native", "wrap", "wrap", "xdom", "xdom", "own"])
         sharexsl = not (mode != "own" and r.random() < 0.2)
         T = r.choice([8, 8, 12, 16])
         R = r.choice([1, 2, 3])
         yseed = r.choice([0, r.randrange(1, 1 << 16), r.randrange(1, 1 << 16)])
         pin = ctx.thorough and r.random() < 0.25
-        cases.append(Case("%s%d" % (tag, i), mode, sharexsl, T, R, yseed, xsl, xml, "random", fs, pin))
+        cases.append(Case("%s%d" % (tag, i), mode, sharexsl, T, R, yseed, xsl, xml, "random" if ids else "random-noids", fs, pin))
     return cases
 
 
@@ -165,7 +157,7 @@ def evaluate(ctx, cases, wd, exes):
             res = byc[c.id][v]
             ctx.cov["evaluations"] += 1
             m = re.search(r"(?m)^%s (\w+) T=(\d+) R=(\d+) runs=(\d+) mismatches=(\d+) errors=(\d+) reflen=(\d+) refhash=(\w+) ?(.*)$" % re.escape(c.id), res["out"])
-            known = "KT1" if in_class_KT1(c) else "KT2" if in_class_KT2(c) else None
+            known = None      # no known-finding class is left for C07 (KT1, KT2 repaired): every failure is a violation
             if res["rc"] == 124:
                 fails.append({"case": c, "variant": v, "kind": "hang", "what": "no result within 240 s under load nor within 1200 s alone", "known": known, "report": ""})
                 continue
@@ -184,7 +176,7 @@ def evaluate(ctx, cases, wd, exes):
             res["refhash"] = m.group(8)
             if v == "tsan":
                 for b in tsan_blocks(res["err"]):
-                    k = "KT1" if (in_class_KT1(c) and sig_KT1(b)) else "KT2" if (in_class_KT2(c) and sig_KT2(b)) else None
+                    k = None
                     summ = re.search(r"SUMMARY: ThreadSanitizer: ([^\n]*)", b)
                     fails.append({"case": c, "variant": v, "kind": "tsan", "what": (summ.group(1) if summ else b.split("\n")[0])[:300], "known": k,
                                   "report": "\n".join(b.split("\n")[:70])})
